@@ -424,7 +424,9 @@ class IsotxsIO(cccc.Stream):
         metadata = self._getNuclideIO()(nuclide, self, self._lib)._getNuclideMetadata()
         if metadata["chiFlag"] > 1:
             numRecords += 1
-        numRecords += sum(1 for _ord in metadata["ords"] if _ord > 0)
+        numRecords += self._metadata["subblockingControl"] * sum(
+            1 for _ord in metadata["ords"] if _ord > 0
+        )
         return numRecords
 
 
@@ -651,6 +653,10 @@ class _IsotxsNuclideIO:
         fix the order later on, if necessary.
         """
         scatter = self._getScatterMatrix(blockNumIndex)
+        previousSubBlocks = None
+        if "r" in self._isotxsIO._fileMode and subBlock > 0:
+            # reading a later sub-block: what is there are the rows of the earlier sub-blocks
+            previousSubBlocks, scatter = scatter, None
         if scatter is not None:
             scatter = scatter.toarray()
         with self._isotxsIO.createRecord() as record:
@@ -667,7 +673,8 @@ class _IsotxsNuclideIO:
             ju = min(ng, jup)
 
             metadata = self._metadata
-            indptr = [0]
+            # the rows above (and below, see the end) this sub-block hold nothing
+            indptr = [0] * jl
             indices = []
             dataVals = []
             for _scatterLoopOrder in range(lordn):
@@ -688,9 +695,12 @@ class _IsotxsNuclideIO:
 
         if scatter is None:
             # we're reading.
+            indptr.extend([indptr[-1]] * (ng - ju))
             scatter = sparse.csr_matrix(
                 (np.array(dataVals), indices, indptr), shape=(ng, ng)
             )
+            if previousSubBlocks is not None:
+                scatter = previousSubBlocks + scatter
             scatter.eliminate_zeros()
             self._setScatterMatrix(blockNumIndex, scatter)
 
